@@ -228,6 +228,33 @@ def conv_success_term(conv, r):
 
 
 _SUMM = {}
+_ZLOOPS = {}
+
+
+def _certified_zero_loops(prog, top):
+    """{(function name, source line)} of the zeroing memsets and zero-only loops that capcheck proves to end exactly at the declared end of the buffer
+    (computed for the entry point and the library functions it can inline)"""
+    out = set()
+    from . import capcheck
+    todo, seen = [top], set()
+    while todo:
+        f = todo.pop()
+        if f.name in seen or len(seen) > 12:
+            continue
+        seen.add(f.name)
+        key = (id(prog), f.name)
+        if key not in _ZLOOPS:
+            try:
+                res, _ = capcheck.analyse(f, capcheck.default_roles(f), prog, None, want_kinds=("W", "S"))
+                _ZLOOPS[key] = {(f.name, x["line"]) for x in res if x.get("zero_fill") and x.get("ends_at_cap")}
+            except Exception:
+                _ZLOOPS[key] = set()
+        out |= _ZLOOPS[key]
+        for c in f.calls():
+            g = prog.resolve(f, c.get("callee")) if c.get("callee") else None
+            if g is not None and g.name not in seen:
+                todo.append(g)
+    return out
 
 
 def _written_params(prog, callee):
@@ -272,8 +299,10 @@ class DFlags(Plugin):
                 s.pinned.add(zp["id"])
         if "out" in fn.pnames:
             s.pinned.add("&" + fn.pnames["out"]["id"])
-        # (dirty, clr_first, clr_full, nul, last stored value, last loaded value, length of the string currently in dest if measured)
-        return (False, False, False, False, None, None, None)
+        s.zero_loop_lines = _certified_zero_loops(eng.prog, fn)
+        # (dirty, clr_first, clr_full, nul, last stored value, last loaded value, length of the string currently in dest if measured,
+        #  wrote: this call stored something (zero or not) into dest, slack: since the last non-zero write dest was zeroed up to its declared end)
+        return (False, False, False, False, None, None, None, False, False)
 
     def no_inline(s, fn):
         return fn.name in s.noinline
@@ -296,6 +325,20 @@ class DFlags(Plugin):
         return False
 
     def write(s, pl, p, n, zero, eng, facts, inst=None):
+        r = s._write(pl[:7], p, n, zero, eng, facts)
+        slack = pl[8]
+        if zero:
+            if r[2] and not r[0]:
+                slack = True                     # the whole declared destination was cleared
+            elif n is not None and s.dmax is not None and eng.decide(("cmp", "eq", p[2] + n, s.dmax.scale(s.unit)), facts) is True:
+                slack = True                     # zeroed from here to dest + dmax
+            elif inst is not None and (inst.get("_fn"), inst.get("line")) in s.zero_loop_lines:
+                slack = True                     # a zero-only loop that capcheck certified to run exactly to dest + dmax
+        else:
+            slack = False
+        return r + (True, slack)
+
+    def _write(s, pl, p, n, zero, eng, facts):
         dirty, c1, cf, nul, lst, lld, slen = pl
         at0 = p[2].is_const() and p[2].c == 0
         if zero:
@@ -328,7 +371,7 @@ class DFlags(Plugin):
                 l = eng.as_lin(v) if v[0] in ("i", "p") else None
                 size = Lin.const(ev[3].get("size", 1))
                 if l is not None and l.is_const() and l.c == 0:
-                    return s.write(pl, p, size, True, eng, facts)
+                    return s.write(pl, p, size, True, eng, facts, inst=dict(ev[3], _fn=ev[4].fn.name))
                 npl = s.write(pl, p, size, False, eng, facts)
                 return npl[:4] + (l,) + npl[5:]
             return pl
@@ -352,13 +395,13 @@ class DFlags(Plugin):
                 c = eng.as_lin(args[0]) if args[0][0] == "i" else None
                 if c is not None and c.is_const() and c.c == 0:
                     return pl[:3] + (True,) + pl[4:]
-                return (True, False, False, False) + pl[4:]
+                return (True, False, False, False) + pl[4:7] + (True, False)
             return pl
         if k == "leave" and ev[1].name in ("_strnlen_s_chk", "_wcsnlen_s_chk") and ev[2] is not None:
             i, fr = ev[3], ev[4]
             a0 = eng.val(fr, i["args"][0], env)
             if s.is_dest(a0) and a0[2].is_const() and a0[2].c == 0 and ev[2][0] == "i":
-                return pl[:6] + (ev[2][1],)
+                return pl[:6] + (ev[2][1],) + pl[7:]
             return pl
         if k == "handler" and s.assume_quiet:
             fr = ev[6]
@@ -410,19 +453,19 @@ class DFlags(Plugin):
             if dk:
                 a0 = args[dk[0]]
                 w = s.write(pl, a0, None, False, eng, facts)
-                ok = w[:3] + (True,) + w[4:]
+                ok = w[:3] + (True,) + w[4:8] + (a0[2].is_const() and a0[2].c == 0,)      # its own success leaves the slack behind its result cleared (its own C08)
                 conv = s.opaque_convention.get(callee.name)
                 if conv is None or not (a0[2].is_const() and a0[2].c == 0):
                     return [(ok, [])]
                 # assume-guarantee: on success the callee left a string in dest; on failure it reset dest itself (its own C04/C03)
-                failed = (False, True, True, True) + pl[4:]
+                failed = (False, True, True, True) + pl[4:7] + (True, True)
                 return [(ok, [(lambda r, conv=conv: conv_success_term(conv, r), True)]),
                         (failed, [(lambda r, conv=conv: conv_success_term(conv, r), False)])]
             return [(pl, [])]
         if call[0] == "ext":
             name, eff, args = call[1], call[2], call[3]
             if name in ("strlen", "wcslen", "strnlen", "wcsnlen") and args and s.is_dest(args[0]) and args[0][2].is_const() and args[0][2].c == 0 and call[6]:
-                return [(pl[:6] + (Lin.atom(call[6]),), [])]
+                return [(pl[:6] + (Lin.atom(call[6]),) + pl[7:], [])]
             for (pa, ln) in eff.get("w", ()):
                 if pa < len(args) and s.is_dest(args[pa]):
                     n = None
@@ -437,7 +480,7 @@ class DFlags(Plugin):
                         zero = v is not None and v.is_const() and v.c == 0
                     if name in ("explicit_bzero", "bzero"):
                         zero = True
-                    pl = s.write(pl, args[pa], n, zero, eng, facts)
+                    pl = s.write(pl, args[pa], n, zero, eng, facts, inst=dict(call[4], _fn=call[5].fn.name))
                     if name in ("fgets", "asctime_r", "ctime_r", "strerror_r", "snprintf", "vsnprintf", "vswprintf", "swprintf", "strcpy", "strncat", "strcat"):
                         pl = pl[:3] + (True,) + pl[4:]      # libc routines that terminate what they write
             return [(pl, [])]
